@@ -90,7 +90,7 @@ var (
 	badNames  = []string{"0a", ""}
 	eqValues  = []string{"1", "2", "x1", ""}
 	badValue  = "@@badutf8" // stands for the byte 0xff (JSON cannot carry it); see unq
-	rePats    = []string{"1|2", ".*", "x.+", "", "[12]?", "1", ".+", "x.*", ".*1", ".*x1.*"}
+	rePats    = []string{"1|2", ".*", "x.+", "", "[12]?", "1", ".+", "x.*", ".*1", ".*x1.*", "2", "x1"}
 	badPats   = []string{"(", "a{2,1}"}
 	lblValues = []string{"1", "2", "x1", "x1\n", "1\n2"} // incl. values with a line break ("." never matches one)
 	comments  = []string{"c", "maintenance", "", "é", strings.Repeat("long comment ", 12)}
@@ -122,6 +122,27 @@ var classicName = regexp.MustCompile(`^[a-zA-Z_][a-zA-Z0-9_]*$`)
 // extTable renders the oracle tables (computed with the real libraries, independently of the code under test).
 func extTable(t *testing.T) string {
 	pats := append(append([]string{}, rePats...), badPats...)
+	// every value a matcher can carry may become a regex through an operator-only edit
+	seenPat := map[string]bool{}
+	for _, p := range pats {
+		seenPat[p] = true
+	}
+	extra := append([]string{}, eqValues...)
+	for _, fam := range lookalikes {
+		for _, cfg := range fam {
+			for _, set := range cfg {
+				for _, m := range set {
+					extra = append(extra, m.V)
+				}
+			}
+		}
+	}
+	for _, v := range extra {
+		if !seenPat[v] && utf8.ValidString(v) {
+			seenPat[v] = true
+			pats = append(pats, v)
+		}
+	}
 	vals := append([]string{""}, lblValues...)
 	var badRe, reEmpty, badName, badUtf8 []string
 	for _, p := range pats {
@@ -1206,7 +1227,16 @@ func (r *runner) gen(g *vh.Rand, v view, now int64, created []string) Op {
 			edits = g.Intn(2)
 		}
 		for e := 0; e < edits; e++ {
-			switch g.Intn(7) {
+			switch g.Intn(9) {
+			case 7, 8: // ONLY the operator of one stored matcher changes (any of the other three): other meaning, must rewrite history
+				if len(s.Sets) > 0 {
+					si := g.Intn(len(s.Sets))
+					if len(s.Sets[si]) > 0 && !strings.Contains(s.Sets[si][0].V, "@@") {
+						mi := g.Intn(len(s.Sets[si]))
+						s.Sets[si][mi].T = (s.Sets[si][mi].T + 1 + g.Intn(3)) % 4
+						r.tags["edit-operator-only"]++
+					}
+				}
 			case 0:
 				s.Comment = vh.Pick(g, comments)
 				s.By = vh.Pick(g, creators)
